@@ -270,7 +270,7 @@ pub fn drive_c16(a: &Args, out: &mut Out) {
 
 // ------------------------------------------------------------------ C05
 
-fn udiff_record<T: DiffableStr + ?Sized>(
+pub fn udiff_record<T: DiffableStr + ?Sized>(
     case: i64,
     alg: Algorithm,
     mode: &str,
